@@ -53,6 +53,7 @@ pub enum Error {
         new_span: Span
     },
     DoubleAssignedFixedOutWire { name: String, span: Span, fixed_name: String },
+    ConstantAssigned { name: String, assign_span: Span, const_span: Span },
     RedeclaredBuiltinWire { name: String, span: Span, fixed_name: String },
     PartialFixedInput {
         name: String,
@@ -398,6 +399,12 @@ impl Error {
                 error(output, &format!("Wire '{}' is output for the {} but is assigned here:", name, fixed_name))?;
                 write!(output, "{}", contents.show_region(span.0, span.1))?;
             },
+            Error::ConstantAssigned { ref name, ref assign_span, ref const_span } => {
+                error(output, &format!("Constant '{}' is assigned here:", name))?;
+                write!(output, "{}", contents.show_region(assign_span.0, assign_span.1))?;
+                error_continue(output, "After being declared as a constant here:")?;
+                write!(output, "{}", contents.show_region(const_span.0, const_span.1))?;
+            },
             Error::DoubleAssignedRegisterWire { ref name, ref register_span , ref assign_span } => {
                 error(output, &format!("Wire '{}' is output of a register declared here:", name))?;
                 write!(output, "{}", contents.show_region(register_span.0, register_span.1))?;
@@ -628,6 +635,7 @@ impl error::Error for Error {
             Error::UnsetRegisterInputWire {..} => "builtin wire required but never assigned",
             Error::DoubleAssignedWire(_,_,_) => "multiply assigned wire found",
             Error::DoubleAssignedFixedOutWire {..} => "wire assigned by fixed functionality also assigned manually",
+            Error::ConstantAssigned {..} => "constant assigned like a wire",
             Error::DoubleAssignedRegisterWire {..} => "wire assigned by register also assigned manually",
             Error::DoubleDeclaredRegisterOutWire {..} => "multiply declared register out wire found",
             Error::RedeclaredWire(_,_,_) => "multiply defined wire found",
